@@ -254,8 +254,23 @@ def c19(ctx):
     g_tree(ctx, acc, 'c19units', 'MC_C19', cfg(['MaxSize = 1', 'Mode = "units"'], ['InvUnits', 'EmitUnits']))
     g_tree(ctx, acc, 'c19deep', 'MC_C19', cfg(['MaxSize = 40', 'Mode = "trees"'], ['InvTwoDefs', 'EmitVector']),
            extra=['-simulate', 'num=%d' % pick(ctx, 100, 10000), '-depth', '13', '-seed', str(ctx.seed)], workers=1, timeout=3000)
+    # T: random trees with exotic shapes, hostile strings and strings / numbers harvested from the source
+    trace = '%s/c19t.ndjson' % ctx.work
+    wd = ctx.t.record(['record-tree', '--count', str(pick(ctx, 4000, 60000)), '--seed', str(ctx.seed)], trace)
+    recs = [json.loads(l) for l in open(trace) if l.startswith('{')]
+    st, verdicts = ctx.t.validate_trace('c19t', 'Trace_Ast', trace, 3000)
+    if len(verdicts) != len(recs):
+        raise ctx.t.ToolError('Trace_Ast judged %d of %d records' % (len(verdicts), len(recs)))
+    acc.add_stage('c19t', st, len(recs), [{'tree': recs[0]['t'], 'action': recs[0]['action'], 'framed': recs[0]['framed']}])
+    acc.distinct += len(set(json.dumps(r['t'], sort_keys=True) for r in recs))
+    for v in verdicts:
+        if v['kinds']:
+            r = recs[v['idx'] - 1]
+            acc.failures.append({'kinds': v['kinds'], 'vector': r, 'stage': 'c19t'})
+    for f in wd:
+        acc.failures.append(f)
     return result('model_checking', acc, True,
-                  'trees grown from 22 leaves built with every public constructor (including Precedence, nested List, Global/Positional, DefaultPrint, empty and newline-in-the-middle format lists) by wrapping in Not/Precedence or combining with a seed tree under And/Or/List on either side, exhaustively up to %d nodes and by random growth to depth 12; unit tables and count*unit for 6 counts per unit including floor((2^64-1)/unit)' % msize,
+                  'trees grown from 30 leaves built with every public constructor (including Precedence, nested List, Global/Positional, DefaultPrint, empty and newline-in-the-middle format lists) by wrapping in Not/Precedence or combining with a seed tree under And/Or/List on either side, exhaustively up to %d nodes and by random growth to depth 12; unit tables and count*unit for 6 counts per unit including floor((2^64-1)/unit)' % msize,
                   ['oracle: Ast.tla HasAction/NeedsFramed, each defined recursively and over the node set (InvTwoDefs); the replay builds the value through the public types (json_to_expr) and checks the projection round trip'])
 
 
